@@ -28,7 +28,7 @@ META = {
                 'elbow:kneedle': 300, 'nontrivial': 500},
     'scale': {'quick': 1, 'thorough': 10},
     'shards': {'quick': 8, 'thorough': 16},
-    'quick_cases': 1500,
+    'quick_cases': 4000,
     'long_per_shard': 3,
     'assumptions': [
         'the corner is asserted only inside the stated family (multiples of 1/8, |y| < 2^17): every arm is '
